@@ -1,4 +1,5 @@
 """C12 — results are deterministic: same inputs, same output, on every run."""
+from props import C14
 import os
 import framework as fw
 import repeat_stream
@@ -79,4 +80,6 @@ def streams(tier, seed):
     # the one text the model prints
     from props import C18
     out.append({"name": "table", "stream": "table", "count": 400 if q else 20000, "judge": C18.judge_table})
+    # the text of the diagnostics, byte for byte against the model of errors.rs (as in C14)
+    out.append({"name": "render", "stream": "render", "count": 800 if q else 20000, "judge": C14.judge_render})
     return out
